@@ -79,12 +79,13 @@ func c38check(raw string, kind Kind, first bool) (parsed bool, failure string) {
 func TestBoundedURLRoundTrip(t *testing.T) {
 	thorough := os.Getenv("VERIF_TIER") == "thorough"
 
-	users := []string{"", "u", "user.name", "-u"}
+	// "@" stands for an explicitly empty user name: "@host:path", "docker://@container/path"
+	users := []string{"", "u", "user.name", "-u", "@"}
 	hosts := []string{"h", "h.example.org", "[::1]", "10.0.0.1", "-h"}
 	ports := []string{"", "0", "22", "65535", "65536"}
 	paths := []string{"p", "/p", "~/p", "~user/p", "22:p", `C:\p`, "p:q", "", ":p", "0:p"}
 	endpoints := []string{"tcp:localhost:8080", "tcp::8080", "tcp4:10.0.0.1:80", "tcp6:[::1]:80", "unix:/run/s.sock", "unix:s.sock", "unix:~/s.sock", `npipe:\\.\pipe\n`, "udp:localhost:53", "tcp:", ""}
-	containers := []string{"c", "c.name_1", "-c"}
+	containers := []string{"c", "c.name_1", "-c", "c@d"}
 	dockerPaths := []string{"/p", "/~/p", "/~user/p", `/C:\p`, "/C:/p", "/", "", "p"}
 	if thorough {
 		// option-like and boundary components, longer digit prefixes
@@ -92,7 +93,7 @@ func TestBoundedURLRoundTrip(t *testing.T) {
 		hosts = append(hosts, "h-1", "22", "::1")
 		ports = append(ports, "00022", "4294967296", "-1", "2x")
 		paths = append(paths, "065536:p", "/22:p", "p/22:q", "~", "C:/p", "c:p", "é/p", "p q", "-p")
-		containers = append(containers, "c@d", "0", "c-d")
+		containers = append(containers, "0", "c-d")
 		dockerPaths = append(dockerPaths, "//p", "/~", "/c:/p", `/1:\p`, "/p:q")
 	}
 
@@ -139,7 +140,9 @@ func TestBoundedURLRoundTrip(t *testing.T) {
 			for _, h := range hosts {
 				for _, port := range ports {
 					raw := h + ":"
-					if u != "" {
+					if u == "@" {
+						raw = "@" + raw
+					} else if u != "" {
 						raw = u + "@" + raw
 					}
 					if port != "" {
@@ -157,7 +160,9 @@ func TestBoundedURLRoundTrip(t *testing.T) {
 			for _, h := range hosts {
 				for _, port := range ports {
 					raw := h + ":"
-					if u != "" {
+					if u == "@" {
+						raw = "@" + raw
+					} else if u != "" {
 						raw = u + "@" + raw
 					}
 					if port != "" {
@@ -173,7 +178,9 @@ func TestBoundedURLRoundTrip(t *testing.T) {
 		for _, u := range users {
 			for _, c := range containers {
 				prefix := scheme
-				if u != "" {
+				if u == "@" {
+					prefix += "@"
+				} else if u != "" {
 					prefix += u + "@"
 				}
 				for _, p := range dockerPaths {
